@@ -243,7 +243,7 @@ func init() {
 		ID:    "C12",
 		Level: "exploration",
 		Rule: "for each of the three client timeout encodings (Grpc-Timeout from gRPC and gRPC-Web clients, Connect-Timeout-Ms from the three Connect forms, X-Server-Timeout from REST clients) x each of the four target protocols: " +
-			"(a quarter of the seeded cases under a request context that already carries a far looser deadline) no timeout, every boundary value of digit counts and unit switches (1..8 digits in all six gRPC units, 1..10 digit millisecond counts, decimal seconds incl. sub-millisecond and sub-nanosecond), seeded interior values, and malformed strings. " +
+			"(a fifth of the seeded cases with a request body that starts arriving 1..3000 simulated milliseconds late; a quarter under a request context that already carries a far looser deadline) no timeout, every boundary value of digit counts and unit switches (1..8 digits in all six gRPC units, 1..10 digit millisecond counts, decimal seconds incl. sub-millisecond and sub-nanosecond), seeded interior values, and malformed strings. " +
 			"oracle: three independent grammars with exact rational arithmetic: valid d must reach the backend as d' with d - unit(target encoding) < d' <= d (beyond 8 hours or the target's range: clamped or dropped allowed); no timeout in => none out; " +
 			"valid never rejected; malformed => no dispatch and a client error. Schedules and faults play no role in this property: the simulator supplies the closed world and the dispatch counter. " +
 			"distinct = (client form, target, value); non-trivial = the request reached ServeHTTP. quick and thorough both run the full boundary table; the seeded part differs in size",
@@ -265,6 +265,12 @@ func init() {
 				codec = "json"
 			}
 			p := c12Plan(form, target, val, codec)
+			if p != nil && c.Prob(0.2) {
+				// the body is slow to start: what the client allowed is still what the backend is told (the clock of the code
+				// under test is the simulator's: the delay is exact and costs no real time)
+				p.RPCs[0].Client.FirstByteDelayMs = Pick(c, 1, 7, 60, 3000)
+				p.RPCs[0].Client.DeclareCL = "none"
+			}
 			if p != nil && c.Prob(0.25) {
 				// the server already bounds the request, much more loosely than the client does: the client's bound stands
 				if d, ok := refTimeoutNanos(hdr, val); ok && d.Cmp(big.NewRat(1800e9, 1)) < 0 {
